@@ -1,9 +1,13 @@
 import Crv.Proofs.ReaderSafe
 import Crv.Proofs.Skeleton
+import Crv.Props.C04
 /-!
 C07 — Parser totality. Statements about the reader model (`Crv/Reader.lean`) instantiated with the
 caps, masks and guards the translator regenerates from core/asn1parser and crl/crlreader on every run.
 They quantify over **every** byte string and **every** behaviour of the trusted leaf decoders (`Oracle`).
+
+Beyond the reader: the CRL-signer candidate search (`FindCertificateIssuerCandidates`), which runs on the parsed authority key
+identifier of every CRL, never hits its nil-pointer dereference (`candidate_search_never_panics`, from C04).
 
 Termination: every model function is a total Lean function (structural recursion, or well-founded
 recursion on the length of the unread input for the entry loop), accepted by Lean's termination checker.
@@ -82,6 +86,20 @@ theorem struct_read_consumes (r : Rd) (f : Bytes) (r' : Rd) (h : readStructFrame
     r'.rest.length < r.rest.length := by
   have := shrinks_readStructFrame r f r' h
   omega
+
+/-- Re-export (`Crv.Props.C04.candidate_search_never_panics`): the CRL-signer candidate search never panics, for every CRL
+issuer, every form of the authority key identifier (absent; any combination of key identifier, serial, issuer), every key
+algorithm and every list of available certificates. It rests on the regenerated rule chain `candRules`: the issuer+serial rule,
+whose loop calls `SerialNumber.Cmp(AuthorityCertSerialNumber)`, only fires when the serial is present. -/
+theorem candidate_search_never_panics (crlIssuer : Nat) (aki : Option Cand.AKI) (alg : KeyAlg) (av : List Cand.Avail) :
+    Cand.findCandidates crlIssuer aki alg av ≠ .panic :=
+  Crv.Props.C04.candidate_search_never_panics crlIssuer aki alg av
+
+-- Non-vacuity: the candidate search's panic outcome exists in the model and is reached by a rule chain whose issuer+serial
+-- rule is not guarded by the serial (`Crv.Props.C04.unguarded_serial_rule_panics`).
+example : Cand.findCandidatesWith [("serial+issuer", ["issuer"]), ("keyid", ["keyid"])] true 7 (some ⟨some 9, none, some 7⟩) .ecdsa
+    [⟨⟨1, 7, 7, 1, some 9, .ecdsa, some true⟩, .trusted⟩] = .panic :=
+  Crv.Props.C04.unguarded_serial_rule_panics 7 (some 9) 7 .ecdsa _ (by simp)
 
 -- Non-vacuity: the panic outcome exists in the model (negative `make` size) and hostile inputs are rejected.
 example : (match readN (-1) { rest := [] } with | .panic _ => true | _ => false) = true := by decide
